@@ -2,6 +2,7 @@ import Mp4ff.Model.BoxTree
 import Mp4ff.Expect.Facts
 import Mp4ff.Lemmas.LayoutThms
 import Mp4ff.Expect.Transcribed
+import Mp4ff.Props.C02b
 /-!
 # C02 — Size() equals bytes written equals the header size field, at every level
 -/
